@@ -270,7 +270,6 @@ import "github.com/biogo/biogo/alphabet"
 //@ func (*Seq).Reverse
 //@   property C05
 //@   requires s != nil
-//@   ensures [wf]      old(wf(s)) ==> wf(s)
 //@   ensures [shape]   len(s.Seq) == old(len(s.Seq)) && arr(s.Seq) == old(arr(s.Seq)) && off(s.Seq) == old(off(s.Seq))
 //@   ensures [columns] forall c int :: 0 <= c && c < len(s.Seq) ==> s.Seq[c] == old(s.Seq[len(s.Seq)-1-c])
 //@   ensures [strand]  s.Strand == 0 && s.Offset == old(s.Offset)
@@ -283,7 +282,6 @@ import "github.com/biogo/biogo/alphabet"
 //@ func (*QSeq).Reverse
 //@   property C05
 //@   requires s != nil
-//@   ensures [wf]      old(qwf(s)) ==> qwf(s)
 //@   ensures [shape]   len(s.Seq) == old(len(s.Seq)) && arr(s.Seq) == old(arr(s.Seq)) && off(s.Seq) == old(off(s.Seq))
 //@   ensures [columns] forall c int :: 0 <= c && c < len(s.Seq) ==> s.Seq[c] == old(s.Seq[len(s.Seq)-1-c])
 //@   ensures [strand]  s.Strand == 0 && s.Offset == old(s.Offset)
